@@ -250,3 +250,57 @@ Theorem C07_join_model_same_degree :
           Err e).
 Proof. exact c_join_same_degree. Qed.
 Print Assumptions C07_join_model_same_degree.
+
+From NurbsV Require Import Proofs.SplitProofs Proofs.SplitJoin.
+(* ---- split-then-join (Proofs/SplitJoin.v): two curves that agree with C on the two sides of x, concatenated, ARE C as a function on the
+   whole interval; for the two pieces the model's split returns at a cut point x the joined vector is C's vector plus p + 1 - mult(x) copies
+   of x, and `A | B` passes through a state that is C itself (knot vector, degree, control points up to ==) and stops only when a further
+   removal at x is refused - given the chain of solve certificates `certs` (checkable by vm_compute). ---- *)
+Theorem C07_pieces_joined_are_the_curve :
+  forall (U : list Q) (p d : nat) (P : list pt) (x : Q) (Ua Ub : list Q) (Pa Pb : list pt),
+       WF Ua p ->
+       WF Ub p ->
+       length Pa = npts_of Ua p ->
+       length Pb = npts_of Ub p ->
+       last_q Ua == x ->
+       x == first_q Ub ->
+       umin_of Ua p == umin_of U p ->
+       umax_of Ub p == umax_of U p ->
+       (forall u : Q,
+        in_range Ua p u = true -> u < x -> Forall2 Qeq (curve_spec Ua p d Pa u) (curve_spec U p d P u)) ->
+       (forall u : Q, in_range Ub p u = true -> Forall2 Qeq (curve_spec Ub p d Pb u) (curve_spec U p d P u)) ->
+       forall u : Q,
+       in_range U p u = true ->
+       Forall2 Qeq (curve_spec (join_vec Ua Ub p) p d (Pa ++ Pb) u) (curve_spec U p d P u).
+Proof. exact split_join_function. Qed.
+Print Assumptions C07_pieces_joined_are_the_curve.
+
+Theorem C07_split_then_join_restores :
+  forall (c : curve) (P : list pt) (d : nat) (x : Q) (a b : curve),
+       cW c = None ->
+       cP c = Some P ->
+       WF (kvec (ckv c)) (cdeg c) ->
+       length P = cnpts c ->
+       Forall (fun q : pt => length q = d) P ->
+       exact_mult (ckv c) [x] ->
+       c_split c (Some [x]) = Ok [a; b] ->
+       let p := cdeg c in
+       let U := kvec (ckv c) in
+       let m := (p + 1 - count_q x U)%nat in
+       let Jv := join_vec (kvec (ckv a)) (kvec (ckv b)) p in
+       certs x m {| kvec := Jv; kdeg := p |} ->
+       umin_of U p < x < umax_of U p /\
+       (forall y : Q, count_q y Jv = (count_q y U + (if Qeqb y x then m else 0))%nat) /\
+       (exists r : curve,
+          c_join a b = Ok r /\
+          (exists (c2 : curve) (P2 : list pt),
+             r = remove_while (length Jv - m) c2 x (Some tol_kclean) /\
+             cW c2 = None /\
+             cP c2 = Some P2 /\
+             Forall2 Qeq (kvec (ckv c2)) U /\ kdeg (ckv c2) = p /\ Forall2 (Forall2 Qeq) P2 P) /\
+          (count_q x (kvec (ckv r)) <= count_q x U)%nat /\
+          (forall y : Q, ~ y == x -> count_q y (kvec (ckv r)) = count_q y U) /\
+          (exists e : exn, c_knot_remove r [x] (Some tol_kclean) = Err e)).
+Proof. exact split_then_join. Qed.
+Print Assumptions C07_split_then_join_restores.
+
